@@ -1,7 +1,7 @@
 #!/bin/bash
 # tools/confirm_wave.sh <wave> <nn>: confirm a sub-agent's change in its scratch worktree /var/tmp/hsv/w<wave>_<nn>
 # (suite passes with it; DEMO.py exits 1 with it and 0 without) and keep it as seeded/<nn>-<wave>/
-w=$1; n=$2; wt=/var/tmp/hsv/w${w}_$n; name=$n-$w; out=/var/tmp/hsv/confirm_$name
+w=$1; n=$2; base=${HSV_BASE:-/var/tmp/hsv}; wt=$base/w${w}_$n; name=$n-$w; out=$base/confirm_$name
 cd $wt || exit 1
 git diff -- src > $out.patch
 [ -s $out.patch ] || { echo "no diff"; exit 1; }
